@@ -128,3 +128,51 @@ func ZZVerifC13Lock() {
 	nd.Assert(scp.Value("n").(int) == g, "C13/lost-update")
 	nd.Reach("C13/lock-end")
 }
+
+// ZZVerifC13NestedSection: a locker is itself a lockable data scope: while a
+// section nested in it is open (LockData on the locker ... Commit) another
+// goroutine's read or write through the same locker does not take effect in
+// between - a reader never sees the section's intermediate value and a
+// read-modify-write done inside the section is not lost.
+func ZZVerifC13NestedSection() {
+	nd.Schedule(nd.Param("NP", 2))
+	nd.Races()
+	var scp app.DataScope
+	if nd.Bool("child") {
+		scp = NewChild(New(make(map[interface{}]interface{})), make(map[interface{}]interface{}))
+	} else {
+		scp = New(make(map[interface{}]interface{}))
+	}
+	scp.SetValue("k", "old")
+	outer := scp.LockData()
+	var wg sync.WaitGroup
+	wg.Add(2)
+	go func() {
+		defer wg.Done()
+		nested := outer.LockData()
+		nested.SetValue("k", "tmp")
+		nd.Yield()
+		nested.SetValue("k", "new")
+		nested.Commit()
+	}()
+	var seen interface{}
+	writes := nd.Bool("other-goroutine-writes")
+	go func() {
+		defer wg.Done()
+		if writes {
+			outer.SetValue("k", "w")
+		} else {
+			seen = outer.Value("k")
+		}
+	}()
+	wg.Wait()
+	final := outer.Value("k")
+	if writes {
+		nd.Assert(final == "new" || final == "w", "C13/nested-section-final-value")
+	} else {
+		nd.Assert(seen == "old" || seen == "new", "C13/nested-section-intermediate-value-seen")
+		nd.Assert(final == "new", "C13/nested-section-final-value")
+	}
+	nd.Assert(outer.Commit() == nil, "C13/commit-ok")
+	nd.Reach("C13/nested-section-end")
+}
